@@ -136,6 +136,10 @@ def programs(tier="quick"):
         "    v @= t_seq", "    sig.next = v", "    self.ob <<= (v + t_seq).bitvector"])))
     out.append(("attributes|unclocked-process-temporary", entity([
         "@std.sequential", "def comb():", "    t = Temporary[Unsigned[4]](self.a & self.us, attributes=[keep('x')])", "    self.o <<= t + 1"])))
+    # --- texts that end up inside comments and string literals
+    out.append(("text|comment-with-line-breaks", entity(["@std.sequential(std.Clock(self.clk))", "def p():", "    cohdl.comment('first line\\nsecond line', 'third')", "    self.o <<= self.a"])))
+    out.append(("text|assert-message-with-quotes", entity(["@std.sequential(std.Clock(self.clk))", "def p():", "    assert self.b, 'say \"hi\" twice'", "    self.o <<= self.a"])))
+    out.append(("text|assert-message-with-line-break", entity(["@std.sequential(std.Clock(self.clk))", "def p():", "    assert self.b, 'one\\ntwo'", "    self.o <<= self.a"])))
     # --- local objects and helper functions with early return
     out.append(("locals|signal-alias-and-helper", entity(["def pick(x, y, c):", "    if c:", "        return x + 1", "    return y", "@std.sequential(std.Clock(self.clk), std.Reset(self.reset))", "def p():", "    loc = Signal[Unsigned[4]](self.a + self.us)",
                                                           "    tmp = pick(loc, self.a, self.b)", "    self.o <<= tmp", "    self.q <<= loc[3] | tmp[0]"])))
